@@ -13,7 +13,7 @@
 (*              strings interned as small integers by the driver).         *)
 (*  kind "e2e"  a real Session fetching metadata from scripted peers:      *)
 (*              what the scripted peers sent and received (PeerHs,         *)
-(*              PeerReq, PeerGone) and the final outcome (End).            *)
+(*              PeerReq, PeerData, PeerGone) and the final outcome (End).  *)
 (*                                                                         *)
 (* A failed obligation does not block the step: its tag is stored in viol  *)
 (* and a line  @@VIOL <position> <tag>  is printed, so ONE run judges the  *)
@@ -144,10 +144,26 @@ TrPeerHs ==
 TrPeerReq ==
     /\ Ev.op = "PeerReq"
     /\ asked' = [asked EXCEPT ![Ev.p] = TRUE]
-    /\ UNCHANGED <<cfg, pst, adv, idl, snub, inflight, adopted, kick>>
+    /\ inflight' = [inflight EXCEPT ![Ev.p] = @ \cup {Ev.i}]
+    /\ UNCHANGED <<cfg, pst, adv, idl, snub, adopted, kick>>
     /\ Step(IF pst[Ev.p] # "hs" \/ adv[Ev.p] = 0 \/ adv[Ev.p] > cfg.max THEN "C13.cap"
             ELSE IF Ev.i < 0 \/ Ev.i >= NB(adv[Ev.p]) THEN "C13.req.range"
             ELSE "")
+
+\* a data message sent by a scripted peer whose policy is about WHAT ARRIVES IN WHICH ORDER UNDER WHICH INDEX ("honest"
+\* peers, which may answer the pipelined requests in any order, and "swap" liars).  Not an obligation of the code: the
+\* enabling condition binds the driver to the design (Metadata!HonestData / PolData("swap")): the premise of C13.live
+\* - the honest peer answered every request with the honest bytes of that range - is checked by TLC, not assumed.
+TrPeerData ==
+    /\ Ev.op = "PeerData"
+    /\ Ev.i \in inflight[Ev.p]
+    /\ cfg.pol[Ev.p] \in {"honest", "swap"}
+    /\ Ev.len = BlkSize(adv[Ev.p], Ev.i)
+    /\ (cfg.pol[Ev.p] = "honest") => (Ev.cls = "good" /\ adv[Ev.p] = cfg.tsize)
+    /\ (cfg.pol[Ev.p] = "swap") => (Ev.cls \in {"good", "moved"} /\ ((Ev.cls = "moved") => CanBeMoved(Ev.i, Ev.len)))
+    /\ inflight' = [inflight EXCEPT ![Ev.p] = @ \ {Ev.i}]
+    /\ UNCHANGED <<cfg, pst, adv, idl, snub, asked, adopted, kick>>
+    /\ Step("")
 
 TrPeerGone ==
     /\ Ev.op = "PeerGone"
@@ -174,7 +190,7 @@ TrEnd ==
 TraceNext ==
     /\ l <= Len(Trace)
     /\ \/ TrReset \/ TrNew \/ TrReq \/ TrGot \/ TrPanic \/ TrMag
-       \/ TrPeerHs \/ TrPeerReq \/ TrPeerGone \/ TrEnd
+       \/ TrPeerHs \/ TrPeerReq \/ TrPeerData \/ TrPeerGone \/ TrEnd
 
 TraceSpec == TraceInit /\ [][TraceNext]_tvars
 
